@@ -80,31 +80,33 @@ def opExport (j : Json) : R Json := do
     | some e => do pure (.ok (← asStr e).toList)
     | none => pure (.error .encode)
   -- run the model
-  let (res, st, mexp, mmust, mres) ← (do
+  -- names as data: the model derives the RTF's name from the target's name, the stub derives its output's
+  -- name from the RTF's name (nothing about intermediate names is taken from the harness)
+  let rtfName := rtfNameOf tname
+  let (res, st, mexp, mmust, mres, mout) ← (do
     if fn == "rtf" then
       let r := writeRtf k dir tname enc before
       let exp := match enc with | .ok b => some b | .error _ => none
       let must := match enc with | .ok _ => false | .error _ => true
-      pure (r.1, r.2, exp, must, (none : Option Model.Export.Name))
+      pure (r.1, r.2, exp, must, (none : Option Model.Export.Name), (none : Option Model.Export.Name))
     else
       let cj ← fld j "conv"
       let mode ← strF cj "mode"
       let html := fn == "html"
       let tA ← asName (← fld j "tA")
       let tB ← asName (← fld j "tB")
-      let rtfName ← asName (← fld j "rtfName")
       if mode == "lookup_fail" then
         let P : Params := { dir, tname, tmpRoot, tA, tB, rtfName, enc, explicitConv := false,
                             conv := .error .os, html }
         let r := writeConv k P before
-        pure (r.1, r.2, none, true, none)
+        pure (r.1, r.2, none, true, none, none)
       else
         let beh ← asBeh (← strF cj "beh")
         let fmt := (← strF cj "fmt").toList
-        let outName ← asName (← fld cj "outName")
+        let outName := convName fmt [rtfName]
         let explicit ← boolF cj "explicit"
         let P : Params := { dir, tname, tmpRoot, tA, tB, rtfName, enc, explicitConv := explicit,
-                            conv := .ok (stub beh fmt outName), html }
+                            conv := .ok (stubN beh fmt), html }
         let r := writeConv k P before
         let okBeh := beh == .okPlain || beh == .okRes
         let exp := match enc with
@@ -113,16 +115,22 @@ def opExport (j : Json) : R Json := do
         let must := (match enc with | .ok _ => false | .error _ => true)
           || beh == .failBefore || beh == .failAfter || beh == .retList || beh == .retOther
         let rn := if html && beh == .okRes then some (outName ++ filesSuffix) else none
-        pure (r.1, r.2, exp, must, rn))
+        pure (r.1, r.2, exp, must, rn, some outName))
   let raisedM := !isOk res
   let targetIsDir := fget before (dir ++ [tname]) == some .dir
+  -- the resource folder's destination is the target itself (a target called `<x>.html_files`): the two
+  -- outputs cannot both be "at the requested path"; excluded by hypothesis in `C18_conv_success`
+  let resIsTarget := mres == some tname
   let mobs : Obs := { before, after := st.fs, dir, tname, tmpRoot, raised := raisedM, mustRaise := mmust,
-                      expected := if targetIsDir then none else mexp,
+                      expected := if targetIsDir || resIsTarget then none else mexp,
                       resName := if targetIsDir then none else mres, resContent := stubResContent }
   let mut out := [("model_result", Json.str (resName res)),
                   ("model_trace", jStrs (st.trace.map effName)),
                   ("model_temps", Json.num (JsonNumber.fromNat st.temps.length)),
                   ("model_viol", jStrs (violations mobs)),
+                  ("model_rtf_name", Json.str (String.ofList rtfName)),
+                  ("model_out_name", match mout with | some n => Json.str (String.ofList n) | none => Json.null),
+                  ("model_res_name", match mres with | some n => Json.str (String.ofList n) | none => Json.null),
                   ("before_wf", Json.bool (wfB before)),
                   ("model_wf", Json.bool (wfB st.fs))]
   if let some a := optFld j "after" then
@@ -133,8 +141,20 @@ def opExport (j : Json) : R Json := do
       out := out ++ [("viol", jStrs (violations obs))]
   return Json.mkObj out
 
+/-- names as data: stem of a name, the RTF name the export derives from it, the converted file's name and the
+resource folder's name (compared with `pathlib` / the stub converter on random names) -/
+def opExportNames (j : Json) : R Json := do
+  let tname ← asName (← fld j "tname")
+  let fmt := (← strF j "fmt").toList
+  let rtf := rtfNameOf tname
+  let out := convName fmt [rtf]
+  return Json.mkObj [("stem", Json.str (String.ofList (stem tname))),
+                     ("rtf", Json.str (String.ofList rtf)),
+                     ("out", Json.str (String.ofList out)),
+                     ("res", Json.str (String.ofList (resourcesOf [out]).getLast!))]
+
 namespace Export
-def ops : List (String × (Json → R Json)) := [("export", opExport)]
+def ops : List (String × (Json → R Json)) := [("export", opExport), ("export_names", opExportNames)]
 end Export
 
 end Driver
